@@ -804,8 +804,10 @@ class G:
             return br[0] + s + br[1]
         if r == 6:
             items = ["%s: %s" % (k, self.pattern(depth + 2, False)) for k in self.c([["'k'"], ["'a'", "1"], []])]
-            if capture_ok and self.b(1, 3):
-                items.append("**" + self.c(["rest", "others"]))  # also as the only element: {**rest}
+            if capture_ok and self.b(1, 2):
+                if self.b(1, 2):
+                    items = []  # the capture as the only element: {**rest}
+                items.append("**" + self.c(["rest", "others"]))
             return "{" + ", ".join(items) + self.c(["", ""]) + "}"
         if r == 7:
             return self.c(["Point", "a.Cls", "int"]) + "(" + self.c(["", "1", "x=1", "0, y=2", "_"]) + ")"
@@ -824,6 +826,9 @@ class G:
         for k in range(n):
             last = k == n - 1
             pat = self.pattern(capture_ok=last)
+            if last and self.b(1, 4):
+                # a mapping pattern with a rest capture, also as its only element
+                pat = self.c(["{**rest}", "{'k': 1, **rest}", "{**others}", "{1: _, 'a': v0, **rest}"])
             if pat in ("cap", "v0", "v1", "_") and not last:
                 pat = "0"
             guard = (" if " + self.expr(2)) if self.b(1, 4) else ""
